@@ -94,7 +94,7 @@ theorem step_good (hs : SimpSound s) (hmem : cfg.maxMem + 32 ≤ p.memLimit) (hc
     have hthis := hR0.this_eq hR
     have hW1 := hW
     rw [← hthis] at hW1
-    obtain ⟨hstep, hs1, ht1⟩ :=
+    obtain ⟨hstep, hs1, ht1, _⟩ :=
       (stepL_sound (w := w1) (o := o) (cfg := cfg) hs hI hR hsat hmem hcode hW1).2 e hm htag h hout
     exact ⟨w1, f, hreach, hstep, by rw [hs1, ht1]; exact hW⟩
 
@@ -204,7 +204,7 @@ theorem explore_complete (hs : SimpSound s) (ho : OracleSound o) (hmem : cfg.max
       · rcases List.mem_cons.1 hm with rfl | hm
         · subst hthis
           rcases stepL_complete (cfg := cfg) hs ho hI hR hmem hcode hW hsat hh with
-            ⟨st', hm', hsat', w', f', hR', hW', hh'⟩ | ⟨e, hme, hcov⟩ | hb
+            ⟨st', hm', hsat', w', f', _, hR', hW', hh'⟩ | ⟨e, hme, hcov⟩ | hb
           · exact ih _ _ _ ⟨st', List.mem_append_left _ (List.mem_reverse.2 hm'), hsat', w', f', hR',
               hR.this_eq hR', hW', hh'⟩
           · exact explore_mono _ _ _ _ (Or.inl ⟨e, List.mem_append_right _ hme, hcov⟩)
